@@ -78,8 +78,8 @@ func (ex *Exec) newThread() *Thread {
 }
 
 func (ex *Exec) spawn(fr *Frame, site ssa.Instruction, fn Value, args []Value) {
-	if len(ex.threads) >= 12 {
-		panic(&unwindFail{"thread bound (12) exceeded at " + ex.site(site)})
+	if len(ex.threads) >= 48 {
+		panic(&unwindFail{"thread bound (48) exceeded at " + ex.site(site)})
 	}
 	t := ex.newThread()
 	t.fn, t.args, t.site = fn, args, site
